@@ -30,7 +30,7 @@ for i in range(1, 21):
     t = t.replace('`git stash`/revert the library change', '`git diff > _p.diff; git checkout -- .` (NEVER use `git stash`: it is shared between worktrees) to revert the library change')
     extra = '\n\nNOTE: earlier rounds already produced the following changes for this property; yours must use DIFFERENT mechanisms (different functions / clauses / kinds of mistake) from these, and preferably touch source files or functions that none of them touched. ' + hint + '\n' + ''.join(' - ' + s[:150] + '\n' for s in prev.get(pid, []))
     extra += '\nRun the existing suite with `go test -vet=off -count=1 -timeout 120s ./...`; the test TestResponseToTimedOutIQ in the root package is known to hang occasionally on the unmodified code: if it times out, run the suite again, but a change that makes it hang most of the time does NOT pass the suite.\n'
-    extra += '\nADDITIONALLY: if, while reading, you find that the UNMODIFIED library already violates the property for some input, schedule or fault (a genuine bug in the original code), do not use it as one of your two changes; instead write it up in %s/%s/_out/baseline/ as finding.md (what fails, for which input) plus a Go test file that FAILS on the unmodified code, and mention it in your reply. Only report bugs you have demonstrated with a failing test.\n' % (rd, pid)
+    extra += '\nADDITIONALLY: if, while reading, you find that the UNMODIFIED library already violates the property for some input, schedule or fault (a genuine bug in the original code), do not use it as one of your changes; instead write it up in %s/%s/_out/baseline/ as finding.md (what fails, for which input) plus a Go test file that FAILS on the unmodified code, and mention it in your reply. Only report bugs you have demonstrated with a failing test.\n' % (rd, pid)
     t = t.replace('Finally restore the worktree', extra.strip('\n') + '\n\nFinally restore the worktree')
     open('%s/%s.prompt.txt' % (rd, pid), 'w').write(t)
 print('prompts written to', rd)
